@@ -144,7 +144,7 @@ let run toks =
       (match decode (tid t) boxed h with
        | None -> "badtl1"
        | Some v ->
-           (match jsonw_alt ffmt js (n_of_dec seed) (tid t) [] v with
+           (match jsonw_alt ffmt js true (n_of_dec seed) (tid t) [] v with
             | None -> "none"
             | Some j ->
                 let canon = (match jw (tid t) [] v with Some c -> c = j | None -> false) in
